@@ -2,7 +2,7 @@
 from ..common import hx
 from . import conf
 RULE = ("bcrypt scripts: 1..30 (quick) / up to 2^10+1 (thorough) random init / expand / salted-expand / encrypt ops with salts of "
-        "16 bytes and keys of 1..72 bytes incl. non-multiples of 4; per-op outputs and a digest of the whole state compared "
+        "1..80 bytes (16 most often; lengths 1..3 and non-multiples of 4 included) and keys of 1..72 bytes incl. non-multiples of 4; per-op outputs and a digest of the whole state compared "
         "with the Lean model; plain = salted with zero salt and = ordinary Blowfish keying evaluated directly on the crate")
 
 
@@ -25,7 +25,9 @@ def run(chk, tier):
             elif c <= 2:
                 cmds.append(f"expand:{hx(r.bytes(1 + r.below(72)))}")
             elif c <= 5:
-                sl = 16 if r.below(4) else r.choice([4, 8, 12, 20, 32])
+                # salts of ANY length >= 1 (the property's quantifier): bcrypt itself uses 16 bytes, but the cyclic word reader is
+                # only exercised by lengths that are not multiples of 4 (a word then straddles the wrap point) and by 1..3 bytes
+                sl = 16 if r.below(3) == 0 else r.choice([1, 2, 3, 4, 5, 6, 7, 8, 9, 10, 11, 12, 13, 15, 17, 19, 20, 23, 32, 33, 72]) if r.below(2) else 1 + r.below(80)
                 cmds.append(f"salted:{hx(r.bytes(sl))}:{hx(r.bytes(1 + r.below(72)))}")
             else:
                 cmds.append(f"enc:{r.next() & 0xFFFFFFFF:08x}:{r.next() & 0xFFFFFFFF:08x}")
